@@ -19,15 +19,16 @@ Proof. exact load_conforms_lax. Qed.
 Print Assumptions C05_v0_conforms_lax.
 
 (* The property as stated (strict conformance) holds on the region safe_ty:
-   no `None` annotation on its own, no fixed-arity tuple member may be None.
-   Missing for the full statement: exactly the two refuted cases below. *)
+   no `None` annotation on its own, no fixed-arity tuple member may be None, no two-member Union written
+   None-first (Union[None, X]: the default engine wraps the parser of its FIRST argument, NoneType).
+   Missing for the full statement: exactly the three refuted cases below. *)
 Theorem C05_v0_partial :
   forall orc cfg t j v, wf_ty t -> safe_ty t = true -> load orc cfg t j = Ok v -> conforms t v.
 Proof. exact load_conforms_strict. Qed.
 Print Assumptions C05_v0_partial.
 
 (* Outside that region the faithful model violates the property (witnesses replayed on the
-   implementation by harness/props/c05.py; findings F45, F46). *)
+   implementation by harness/props/c05.py; findings F45, F46, F55). *)
 Definition no_orc : pstr -> pv -> ores := fun _ _ => OMiss.
 Definition cfg0 := mkL (S "__tag__").
 
@@ -37,6 +38,16 @@ Example C05_union_none_rejected :
   load no_orc cfg0 (TUnion [TInt; TStr]) VNone = Err (ERaise (S "ParseError")) /\
   load no_orc cfg0 (TUnion [TInt; TNone; TStr]) VNone = Ok VNone.
 Proof. split; reflexivity. Qed.
+
+Theorem C05_refuted_union_none_first :
+  exists t j v, wf_ty t /\ load no_orc cfg0 t j = Ok v /\ ~ conforms t v.
+Proof.
+  exists (TUnion [TNone; TInt]), (VStr (S "junk")), (VStr (S "junk")). split; [|split; [reflexivity|]].
+  - constructor. repeat constructor.
+  - intros H. inversion H as [| | | | | | | | | | | | | | |? t' ? Hin Hc| | | | | |]; subst; try discriminate.
+    destruct Hin as [<-|[<-|[]]]; inversion Hc; discriminate.
+Qed.
+Print Assumptions C05_refuted_union_none_first.
 
 Theorem C05_refuted_tuple_short :
   exists t j v, wf_ty t /\ load no_orc cfg0 t j = Ok v /\ ~ conforms t v.
